@@ -748,17 +748,6 @@ var allowedCallers = map[string]string{
 	"WithChainID called on k in x/evm/genesis.go:InitGenesis":                                              "InitChain",
 }
 
-func verifRoot() string {
-	if r := os.Getenv("VERIF_ROOT"); r != "" {
-		return r
-	}
-	exe, err := os.Executable()
-	if err == nil {
-		return filepath.Dir(filepath.Dir(exe)) // <root>/build/hq
-	}
-	return "/verif"
-}
-
 func scanCase(root string) Case {
 	c := Case{ID: "source-scan", Kind: "source-scan", Input: map[string]string{"scan": root}, Key: "source-scan", OracleOK: true, Nontrivial: true, Tags: []string{"source-scan"}, Obligation: true}
 	res, err := scanSources(root)
